@@ -2,6 +2,8 @@
 
 package sod
 
+import "encoding/json"
+
 // vhObjIndexValid asserts the representation invariant of an objIndex:
 // uuid <-> object-id maps are inverse bijections, the id counter is above
 // every id, and every field index holds exactly the known ids, ordered.
@@ -82,4 +84,75 @@ func VH_C03_objindex() {
 	}
 	vMapOrder(false)
 	vhObjIndexValid("C03.objindex.post", in)
+}
+
+// VH_C01_objindex_ids: object ids stay distinct over histories with holes:
+// N objects are indexed, an arbitrary subset is removed (in either order),
+// up to two new objects arrive, optionally after a JSON round trip of the
+// index: the representation invariant holds and every live object, and only
+// those, is known under its own identifier.
+func VH_C01_objindex_ids() {
+	in := newIndex(FieldDescriptors(&vTwoU{}))
+	n := vBound("N", 4)
+	uu := func(k int) string {
+		return string([]byte{'a' + byte(k)}) + "aaaaaaa-0000-4000-8000-00000000000" + string([]byte{'0' + byte(k)})
+	}
+	live := map[string]int64{}
+	for k := 0; k < n; k++ {
+		o := &vTwoU{A: int64(k), K: int64(k), B: 7, Q: "q" + string([]byte{'a' + byte(k)})}
+		o.Initialize(uu(k))
+		vAssert("C01.ids.build", in.insertOrUpdate(o) == nil)
+		live[uu(k)] = int64(k)
+	}
+	del := make([]bool, n)
+	for k := 0; k < n; k++ {
+		del[k] = vChoice("del", 2) == 1
+	}
+	if vChoice("order", 2) == 0 {
+		for k := 0; k < n; k++ {
+			if del[k] {
+				in.deleteByUUID(uu(k))
+				delete(live, uu(k))
+			}
+		}
+	} else {
+		for k := n - 1; k >= 0; k-- {
+			if del[k] {
+				in.deleteByUUID(uu(k))
+				delete(live, uu(k))
+			}
+		}
+	}
+	if vChoice("reload", 2) == 1 {
+		b, err := json.Marshal(in)
+		vAssert("C01.ids.marshal", err == nil)
+		in2 := newIndex(FieldDescriptors(&vTwoU{}))
+		vAssert("C01.ids.unmarshal", json.Unmarshal(b, in2) == nil)
+		in = in2
+	}
+	m := vLen("new", 0, 2)
+	for k := 0; k < m; k++ {
+		o := &vTwoU{A: int64(10 + k), K: int64(10 + k), B: 7, Q: "n" + string([]byte{'a' + byte(k)})}
+		o.Initialize(uu(n + k))
+		vAssert("C01.ids.insert_new", in.insertOrUpdate(o) == nil)
+		live[uu(n+k)] = int64(10 + k)
+	}
+	vhObjIndexValid("C01.ids", in)
+	vAssert("C01.ids.count", len(in.ObjectIds) == len(live))
+	known := map[string]bool{}
+	for _, u := range in.ObjectIds {
+		known[u] = true
+	}
+	for u, a := range live {
+		vAssert("C01.ids.live_known", known[u])
+		// the A entry attributed to this object carries its own value
+		fi := in.Fields["A"]
+		found := false
+		for _, e := range fi.Index {
+			if in.ObjectIds[e.ObjectId] == u {
+				found = vhEq(e.Value, a)
+			}
+		}
+		vAssert("C01.ids.own_value", found)
+	}
 }
